@@ -56,7 +56,7 @@ enga_prop!(C03, "C03", profiles = CHECKED,
     quick = 320_000, thorough = 10_000_000,
     assumptions = COMMON_ASSUME.to_vec());
 
-enga_prop!(C04, "C04", profiles = BOTH_PROFILES,
+enga_prop!(C04A, "C04", profiles = BOTH_PROFILES,
     profile = { let mut p = Profile::base(); p.huge = true; p.w_fill = 8; p.w_aligned = 30; p.w_typed = 20; p.w_reopen = 0; p },
     mode = Mode::default(),
     nontrivial = |c| c.contains("huge-request") || c.contains("alloc-failed-full"),
@@ -64,7 +64,7 @@ enga_prop!(C04, "C04", profiles = BOTH_PROFILES,
     quick = 320_000, thorough = 10_000_000,
     assumptions = { let mut v = COMMON_ASSUME.to_vec(); v.push("out-of-arena reads/writes are visible in the quick tier only through their consequences (crash, corrupted neighbour pattern); the thorough tier adds an AddressSanitizer fuzz target"); v });
 
-enga_prop!(C08, "C08", profiles = CHECKED,
+enga_prop!(C08A, "C08", profiles = CHECKED,
     profile = { let mut p = Profile::base(); p.w_bytes = 70; p.w_typed = 10; p.w_aligned = 10; p.w_drop = 45; p.w_fill = 10; p.w_rewind = 5; p.w_discard = 3; p.w_clear = 1; p.w_dealloc = 6; p.w_detach = 6; p.w_reopen = 2; p },
     mode = Mode { dirty: true, ..Mode::default() },
     nontrivial = |c| c.contains("zeroed-dirty"),
